@@ -191,6 +191,8 @@ def gen_produced(rng):
         case["circuit"] = lib.rand_dag(rng, rng.randint(1, 4), rng.randint(1, 6), max_fanin=5,
                                        p_const=0.3 if fn != "ternary" else 0.2)
         case["k"] = rng.randint(2, 4)
+        if fn in ("limit_fanin", "limit_fanout", "copy", "relabel") and rng.random() < 0.5:
+            case["circuit"] = lib.add_flop(rng, case["circuit"], inst=rng.choice(["ff0", "r_0"]))
     elif fn in ("adder", "mux", "popcount"):
         case["w"] = rng.randint(1, 3) if fn != "mux" else rng.randint(1, 4)   # vm_compute on string-keyed maps: keep produced graphs below ~40 nodes
         case["ci"] = rng.random() < 0.5
@@ -207,11 +209,15 @@ def gen_produced(rng):
         for n in child["nodes"]:
             n[2] = False
         child["nodes"][-1][2] = True
+        if rng.random() < 0.4:
+            child["nodes"][0][2] = True          # a pass-through pin: input that is also marked as output
         case["child"] = lib.add_flop(rng, child, inst=rng.choice(["r0", "reg_a", "ff"]), on=child["nodes"][-1][0], clk="k0", bbname="ff")
         case["inst"] = rng.choice(["u", "acc", "u_1"])
     elif fn in ("unroll", "insert_registers", "sensitization", "verilog_roundtrip", "bench_roundtrip"):
         case["circuit"] = lib.rand_dag(rng, rng.randint(2, 3), rng.randint(2, 6), max_fanin=3, p_const=0.2 if fn.endswith("roundtrip") else 0.0)
         case["k"] = rng.randint(1, 2)
+        if fn == "insert_registers" and rng.random() < 0.6:
+            case["circuit"] = lib.add_flop(rng, case["circuit"], inst="u_ff")
     elif fn == "remove_unloaded":
         # flop whose q buffer feeds only a dead (unloaded, non-output) cone, next to live logic
         d = lib.rand_dag(rng, rng.randint(2, 3), rng.randint(1, 4), max_fanin=3)
@@ -260,8 +266,10 @@ def impl(case):
         ff, ul, ud, si = case["flags"]
         return {"lint": _lint(c, fail_fast=ff, unloaded=ul, undriven=ud, single_input_gates=si)}
     fn = case["producer"]
+    c = None
     if "circuit" in case:
         c = lib.build_circuit(case["circuit"])
+    arg_clean_before = c is not None and _lint(c) == "ok"
     try:
         if fn == "limit_fanin":
             r = cg.tx.limit_fanin(c, case["k"])
@@ -274,7 +282,8 @@ def impl(case):
         elif fn == "copy":
             r = c.copy()
         elif fn == "relabel":
-            r = cg.tx.relabel(c, {n: f"r_{n}" for n in c.nodes()})
+            # pin nodes keep their names: renaming <inst>.<pin> without renaming the instance is the caller's mistake, not the library's
+            r = cg.tx.relabel(c, {n: f"r_{n}" for n in c.nodes() if "." not in n})
         elif fn == "half_adder":
             r = cg.logic.half_adder()
         elif fn == "full_adder":
@@ -301,7 +310,8 @@ def impl(case):
             srcs = sorted(par.inputs())
             conns = {i: srcs[k % len(srcs)] for k, i in enumerate(ins)}
             for k, o in enumerate(outs):
-                conns[o] = par.add(f"ld{k}", "buf", output=True)
+                if o not in conns:             # a pass-through pin is attached as an input only
+                    conns[o] = par.add(f"ld{k}", "buf", output=True)
             if fn == "fill_nested":
                 par.add_blackbox(cg.BlackBox("blk", ins, outs), inst, conns)
                 par.fill_blackbox(inst, ch)
@@ -333,7 +343,12 @@ def impl(case):
             r = cg.io.bench_to_circuit(cg.io.circuit_to_bench(c), c.name)
     except Exception as e:
         return {"producer_exc": type(e).__name__}
-    return {"out": lib.dump_circuit(r), "lint": _lint(r)}
+    obs = {"out": lib.dump_circuit(r), "lint": _lint(r)}
+    if arg_clean_before and c is not r:
+        # a transform must leave its lint-clean argument lint-clean (shared registries show up here)
+        obs["arg"] = lib.dump_circuit(c)
+        obs["arg_lint"] = _lint(c)
+    return obs
 
 
 def cres(s):
@@ -350,7 +365,10 @@ def to_coq(case, obs):
         return f"CLint {ccirc(case['circuit'])} {cb(ff)} {cb(ul)} {cb(ud)} {cb(si)} {cres(obs['lint'])}"
     if "out" not in obs:
         return None
-    return f"CProduced {cs(case['producer'])} {ccirc(obs['out'])} {cres(obs['lint'])}"
+    t = f"CProduced {cs(case['producer'])} {ccirc(obs['out'])} {cres(obs['lint'])}"
+    if "arg" in obs and len(obs["arg"]["nodes"]) <= 40:
+        t = f"CBoth ({t}) (CProduced {cs(case['producer'] + ':argument')} {ccirc(obs['arg'])} {cres(obs['arg_lint'])})"
+    return t
 
 
 def nontrivial(case, obs):
